@@ -30,7 +30,8 @@ def run_probe(src, name, debug=0, limit=2.0):
     f = File(name, src)
     out = io.StringIO()
     log, pops, events = [], [], []
-    res = {"kind": "ok", "log": log, "pops": pops, "events": events, "ntokens": None}
+    inner_nl = []       # per statement: NEWLINE tokens before its last token
+    res = {"kind": "ok", "log": log, "pops": pops, "events": events, "ntokens": None, "inner_newlines": inner_nl}
     reg = Registry()
     depth = [0]
     orig_rr = reg.run_rules
@@ -59,6 +60,7 @@ def run_probe(src, name, debug=0, limit=2.0):
             def pop(stop):
                 pops.append((stop, len(ctx.tokens)))
                 seg = ctx.tokens[:stop] if isinstance(stop, int) and stop > 0 else []
+                inner_nl.append(sum(1 for t in seg[:-1] if t.type == "NEWLINE"))
                 events.append(("pop", stop, len(ctx.tokens), seg[0].pos[1] if seg else None,
                                seg[-1].type if seg else None, ctx.scope.name))
                 return orig_pop(stop)
